@@ -28,7 +28,8 @@ def run(ctx):
     # the cell of the confusion matrix, and nothing else about the labels, decides
     import numpy as np
     encs = [None, lambda a, b, t: (bool(a), bool(b)), lambda a, b, t: (np.bool_(a), np.bool_(b)), lambda a, b, t: (np.int64(a), np.int64(b)),
-            lambda a, b, t: (np.array([a]), np.array([b])), lambda a, b, t: (np.array([a]) > 0, np.array([b]) > 0), lambda a, b, t: ([a], [b])]
+            lambda a, b, t: (np.array([a]), np.array([b])), lambda a, b, t: (np.array([a]) > 0, np.array([b]) > 0), lambda a, b, t: ([a], [b]),
+            lambda a, b, t: (np.uint8(a), np.uint8(b)), lambda a, b, t: (np.array([a], dtype=np.uint16), np.array([b], dtype=np.uint16))]
     t2 = []
     for i in range(n2):
         rs = tuple(sorted(rng.sample(range(3, ln), rng.randint(1, 3)))) if i % 2 == 0 else ()      # user resets at arbitrary stream positions
@@ -56,7 +57,8 @@ def replay(ctx, bundle):
     r = bundle["replay"]
     import numpy as np
     encs = [None, lambda a, b, t: (bool(a), bool(b)), lambda a, b, t: (np.bool_(a), np.bool_(b)), lambda a, b, t: (np.int64(a), np.int64(b)),
-            lambda a, b, t: (np.array([a]), np.array([b])), lambda a, b, t: (np.array([a]) > 0, np.array([b]) > 0), lambda a, b, t: ([a], [b])]
+            lambda a, b, t: (np.array([a]), np.array([b])), lambda a, b, t: (np.array([a]) > 0, np.array([b]) > 0), lambda a, b, t: ([a], [b]),
+            lambda a, b, t: (np.uint8(a), np.uint8(b)), lambda a, b, t: (np.array([a], dtype=np.uint16), np.array([b], dtype=np.uint16))]
     t = D.run(r["params"], [tuple(c) for c in r["cells"]], r["seed"], enc=encs[r.get("enc", 0)], resets=tuple(r.get("resets", ())), bads=tuple(r.get("bads", ())))
     ctx.validate("LFR", [t], "replay", replay=lambda i: r)
     return ctx.finish()
